@@ -185,6 +185,11 @@ impl Lifecycle {
             "C06" => k.w_top = [1, 0, 0, 0, 0, 0, 0],
             "C04" => {
                 k.w_top = [40, 2, *rng.pick(&[0, 6, 15]), 3, 8, 8, 0];
+                if rng.chance(0.2) {
+                    // failed commits followed by further commits and a reopen
+                    k.failing_commits = true;
+                    k.w_top[1] = 8;
+                }
             }
             "C05" => {
                 k.w_top = [40, 2, *rng.pick(&[8, 20, 40]), 3, 0, 0, 0];
